@@ -550,15 +550,16 @@ func (w *World) tick(d int64) {
 
 // Req is a concrete HTTP request as the model sees it.
 type Req struct {
-	Browser  string      `json:"browser"`
-	Method   string      `json:"method"`
-	Route    string      `json:"route"` // symbolic route name (Coq constructor family)
-	Arg      string      `json:"arg"`   // provider / app variant / 2fa kind
-	Path     string      `json:"path"`  // path below the mount (module routes) or full path (app)
-	RawQuery string      `json:"rawquery"`
-	Query    [][2]string `json:"query"`
-	Form     [][2]string `json:"form"`
-	BadBody  bool        `json:"badbody"`
+	Browser     string      `json:"browser"`
+	Method      string      `json:"method"`
+	Route       string      `json:"route"` // symbolic route name (Coq constructor family)
+	Arg         string      `json:"arg"`   // provider / app variant / 2fa kind
+	Path        string      `json:"path"`  // path below the mount (module routes) or full path (app)
+	RawQuery    string      `json:"rawquery"`
+	Query       [][2]string `json:"query"`
+	Form        [][2]string `json:"form"`
+	BadBody     bool        `json:"badbody"`
+	RawOverride string      `json:"-"`
 }
 
 var routePaths = map[string]string{
@@ -597,6 +598,9 @@ func (r *Req) fill() {
 		parts = append(parts, url.QueryEscape(kv[0])+"="+url.QueryEscape(kv[1]))
 	}
 	r.RawQuery = strings.Join(parts, "&")
+	if r.RawOverride != "" {
+		r.RawQuery = r.RawOverride
+	}
 }
 
 type respObs struct {
